@@ -86,26 +86,37 @@ type oxmDef struct {
 }
 
 var swOxms = []oxmDef{
-	{0x8000, 0, 4, false},  // in_port
-	{0x8000, 2, 8, true},   // metadata
-	{0x8000, 3, 6, true},   // eth_dst
-	{0x8000, 4, 6, true},   // eth_src
-	{0x8000, 5, 2, false},  // eth_type
-	{0x8000, 6, 2, true},   // vlan_vid
-	{0x8000, 10, 1, false}, // ip_proto
-	{0x8000, 11, 4, true},  // ipv4_src
-	{0x8000, 12, 4, true},  // ipv4_dst
-	{0x8000, 13, 2, false}, // tcp_src
-	{0x8000, 15, 2, false}, // udp_src
-	{0x8000, 21, 2, false}, // arp_op
-	{0x8000, 26, 16, true}, // ipv6_src
-	{0x8000, 38, 8, true},  // tunnel_id
-	{0x0001, 0, 4, true},   // NXM_NX_REG0
-	{0x0001, 3, 4, true},   // NXM_NX_REG3
-	{0x0001, 107, 4, true}, // NXM_NX_CT_MARK
-	{0x0001, 105, 4, true}, // NXM_NX_CT_STATE
-	{0xffff, 42, 2, true},  // ONF experimenter: tcp_flags (experimenter id 0x4f4e4600 after the OXM header)
-	{0xffff, 43, 4, false}, // ONF experimenter: actset_output
+	{0x8000, 0, 4, false},   // in_port
+	{0x8000, 2, 8, true},    // metadata
+	{0x8000, 3, 6, true},    // eth_dst
+	{0x8000, 4, 6, true},    // eth_src
+	{0x8000, 5, 2, false},   // eth_type
+	{0x8000, 6, 2, true},    // vlan_vid
+	{0x8000, 10, 1, false},  // ip_proto
+	{0x8000, 11, 4, true},   // ipv4_src
+	{0x8000, 12, 4, true},   // ipv4_dst
+	{0x8000, 13, 2, false},  // tcp_src
+	{0x8000, 15, 2, false},  // udp_src
+	{0x8000, 21, 2, false},  // arp_op
+	{0x8000, 26, 16, true},  // ipv6_src
+	{0x8000, 38, 8, true},   // tunnel_id
+	{0x0001, 0, 4, true},    // NXM_NX_REG0
+	{0x0001, 3, 4, true},    // NXM_NX_REG3
+	{0x0001, 107, 4, true},  // NXM_NX_CT_MARK
+	{0x0001, 105, 4, true},  // NXM_NX_CT_STATE
+	{0x0001, 16, 8, true},   // NXM_NX_TUN_ID
+	{0x0001, 26, 1, true},   // NXM_NX_IP_FRAG
+	{0x0001, 28, 1, false},  // NXM_NX_IP_ECN
+	{0x0001, 29, 1, false},  // NXM_NX_IP_TTL
+	{0x0001, 34, 2, true},   // NXM_NX_TCP_FLAGS
+	{0x0001, 35, 4, true},   // NXM_NX_DP_HASH
+	{0x0001, 36, 4, false},  // NXM_NX_RECIRC_ID
+	{0x0001, 104, 2, true},  // NXM_NX_TUN_FLAGS
+	{0x0001, 106, 2, false}, // NXM_NX_CT_ZONE
+	{0x0001, 108, 16, true}, // NXM_NX_CT_LABEL
+	{0x0001, 111, 16, true}, // NXM_NX_XXREG0
+	{0xffff, 42, 2, true},   // ONF experimenter: tcp_flags (experimenter id 0x4f4e4600 after the OXM header)
+	{0xffff, 43, 4, false},  // ONF experimenter: actset_output
 }
 
 // match returns the padded ofp_match bytes and records the expectations under prefix (e.g. "Match")
